@@ -22,7 +22,7 @@ import time
 from vf.core import Check, CaseResult, PY, VERIF, REPO
 
 SCENARIOS = ['plain', 'with', 'ctx', 'nonblocking', 'nested', 'nested_force', 'timed_vs_holder',
-             'default_timeout', 'with_subprocess', 'del']
+             'default_timeout', 'with_subprocess', 'del', 'forked_worker']
 
 PROBE = ("import sys, logging; logging.disable(50); import aiuti.filelock as F; l = F.FileLock(sys.argv[1]); "
          "g = l.acquire(blocking=False); print('PROBE', g); g and l.release()")
@@ -121,6 +121,12 @@ class C13(Check):
                 ns = list(range(1 + (seed + rep) % stride, K[s] + 1, stride))
                 for i in range(0, len(ns), chunk):
                     yield {'scen': s, 'ns': ns[i:i + chunk], 'cont': 1 + (i // chunk + rep) % 2, 'rep': rep}
+        # one live waiter that is already polling with a long timeout when the holder dies
+        for rep in range(reps):
+            for s in ('plain', 'nested'):
+                ns = list(range(1 + (seed + rep) % stride, K[s] + 1, stride))
+                for i in range(0, len(ns), chunk):
+                    yield {'scen': s, 'ns': ns[i:i + chunk], 'cont': 'waiter', 'rep': rep}
 
     # -- helpers ----------------------------------------------------------------
     def probe_both(self, path, res, what):
@@ -200,7 +206,11 @@ class C13(Check):
         d = tempfile.mkdtemp(prefix='c13c-', dir=self.dir)
         path = os.path.join(d, 'x.lock')
         try:
-            if case['cont'] == 0:
+            if case['cont'] == 'waiter':
+                self.with_waiter(case, d, path, res)
+            elif scen == 'forked_worker':
+                self.forked_worker(case, path, res)
+            elif case['cont'] == 0:
                 info = self.kill_one(path, scen, case['n'], res)
                 if info is None:
                     res.sample = {'scenario': scen, 'n': case['n'], 'note': 'crash point not reached'}
@@ -221,6 +231,143 @@ class C13(Check):
         if res.nontrivial:
             st['nontrivial'] += 1
         return res
+
+    def forked_worker(self, case, path, res):
+        """The process that dies is a forked worker of a live parent which had used the same lock object before."""
+        st = res.stats
+        p = subprocess.Popen([PY, '-W', 'ignore', '-m', 'vf.props.crash_child', path, str(case['n']), 'forked_worker'], env=_env(), cwd=VERIF,
+                             stdout=subprocess.PIPE, stderr=subprocess.PIPE)
+        out = []
+        try:
+            os.set_blocking(p.stdout.fileno(), False)
+            t0 = time.time()
+            buf = b''
+            while time.time() - t0 < 60:
+                try:
+                    chunk = p.stdout.read()
+                except Exception:
+                    chunk = None
+                if chunk:
+                    buf += chunk
+                if b'WORKER_DEAD' in buf or b'TOTAL' in buf or p.poll() is not None:
+                    break
+                time.sleep(0.002)
+            out = buf.decode().splitlines()
+            kl = [l for l in out if l.startswith('KILL')]
+            if not kl or not any(l.startswith('WORKER_DEAD 9') for l in out):
+                st['crash_point_not_reached'] += 1
+                res.sample = {'scenario': 'forked_worker', 'n': case['n'], 'note': 'crash point not reached', 'out': out[-3:]}
+                return
+            _, nn, qual, line, locked, extra = kl[0].split()
+            st['crash_points_reached'] += 1
+            st['worker_of_live_parent_killed'] += 1
+            info = {'n': int(nn), 'at': f'{qual}:{line}', 'held_kernel_lock': bool(int(locked)), 'extra_fds_open': int(extra),
+                    'parent_alive': p.poll() is None}
+            if int(locked):
+                st['killed_while_holding'] += 1
+            elif int(extra) > 0:
+                st['killed_with_lockfile_open_not_locked'] += 1
+            if p.poll() is not None:
+                res.inconclusive = 'the pre-fork parent did not stay alive'
+                return
+            self.probe_both(path, res, {'scenario': 'forked_worker', 'killed': info, 'pre_fork_parent_alive': True})
+            res.nontrivial = info['held_kernel_lock'] or info['extra_fds_open'] > 0
+            res.tags = {f'killed_at:worker:{info["at"]}'}
+            res.sample = {'scenario': 'forked_worker', 'killed': info,
+                          'probe': 'acquired at first non-blocking attempt' if not res.violations else 'FAILED'}
+        finally:
+            if p.poll() is None:
+                p.send_signal(signal.SIGTERM)
+            try:
+                p.communicate(timeout=20)
+            except Exception:
+                p.kill()
+                p.communicate()
+
+    WAITER_TIMEOUT = 25.0
+    WAITER_POLL = 0.05
+
+    def with_waiter(self, case, d, path, res):
+        """A live process is in the middle of acquire(timeout=25 s) when the holder is killed. 'Promptly' is judged in
+        the waiter's own steps: how many pauses between attempts it began after the death before it had the lock."""
+        st = res.stats
+        scen = case['scen']
+        logf = os.path.join(d, 'waiter.log')
+        w = subprocess.Popen([PY, '-m', 'vf.props.waiter_child', path, logf, str(self.WAITER_TIMEOUT), str(self.WAITER_POLL)],
+                             env=_env(), cwd=VERIF, stdout=subprocess.PIPE, stderr=subprocess.PIPE)
+
+        def events():
+            try:
+                with open(logf) as f:
+                    lines = f.read().splitlines()
+            except OSError:
+                return []
+            ev = []
+            for l in lines:
+                a = l.split()
+                if len(a) >= 2:
+                    ev.append((a[0], float(a[1]), a[2] if len(a) > 2 else ''))
+            return ev
+        try:
+            t0 = time.time()
+            while not any(e[0] == 'A' for e in events()) and time.time() - t0 < 30 and w.poll() is None:
+                time.sleep(0.02)
+            if not any(e[0] == 'A' for e in events()):
+                res.inconclusive = 'waiter did not start'
+                return
+            if any(e[0] == 'NOPROXY' for e in events()):
+                res.inconclusive = 'aiuti.filelock no longer pauses through its `time` module: the waiter\'s steps cannot be counted'
+                return
+            killed = []
+            for n in case['ns']:
+                info = self.kill_one(path, scen, n, res)
+                td = time.monotonic()
+                if info is None:
+                    continue
+                killed.append(info)
+                res.tags = (res.tags or set()) | {f'killed_at:{info["at"]}'}
+                if not info['held_kernel_lock']:
+                    self.reap()
+                    continue
+                res.nontrivial = True
+                # the waiter's view: pauses begun after the death and before its next successful acquisition
+                deadline = time.time() + 12
+                verdict = None
+                while time.time() < deadline:
+                    ev = [e for e in events() if e[1] > td]
+                    acq = [e for e in ev if e[0] == 'A' and e[2] == 'True']
+                    upto = acq[0][1] if acq else float('inf')
+                    pauses = sum(1 for e in ev if e[0] == 'S' and e[1] < upto)
+                    if pauses > 8:
+                        verdict = ('late', pauses, bool(acq))
+                        break
+                    if acq:
+                        verdict = ('prompt', pauses, True)
+                        break
+                    time.sleep(0.01)
+                self.reap()
+                if verdict is None:
+                    res.inconclusive = 'waiter neither acquired nor paused within the wall-clock watchdog (starved?)'
+                elif verdict[0] == 'prompt':
+                    st['polling_waiter_acquired_promptly_after_kill'] += 1
+                    st[f'waiter_pauses_begun_after_death_{verdict[1]}'] += 1
+                else:
+                    res.violate('C13:waiter-not-prompt', 'a process already waiting with a timeout began more than 8 further pauses after '
+                                'the holder was killed without taking the (free) lock', scenario=scen, killed=info,
+                                pauses_after_death=verdict[1], poll_interval=self.WAITER_POLL, timeout=self.WAITER_TIMEOUT)
+                    break
+            res.sample = {'scenario': scen, 'contenders': 'one polling waiter (timeout 25 s)', 'killed': killed[:4]}
+        finally:
+            if w.poll() is None:
+                w.send_signal(signal.SIGTERM)
+            try:
+                o, e = w.communicate(timeout=40)
+                rep = json.loads(o.decode().strip().splitlines()[-1])
+                if rep['errors']:
+                    res.inconclusive = (res.inconclusive or '') + ' waiter errors: ' + repr(rep['errors'][:2])
+            except Exception:
+                w.kill()
+                w.communicate()
 
     def with_contenders(self, case, d, path, res):
         st = res.stats
@@ -313,7 +460,8 @@ class C13(Check):
     def floors(self, tier):
         k = 1 if tier == 'quick' else 2
         return {'crash_points_reached': 500, 'killed_while_holding': 150, 'killed_with_lockfile_open_not_locked': 20,
-                'fresh_process_probes_ok': 500, 'survivors_progressed_after_kill': 80 * k}
+                'fresh_process_probes_ok': 500, 'survivors_progressed_after_kill': 80 * k,
+                'polling_waiter_acquired_promptly_after_kill': 15 * k, 'worker_of_live_parent_killed': 30}
 
     def extra_evidence(self, tier, agg):
         if self.K is None:
